@@ -32,20 +32,25 @@ pub struct GenParams {
     pub plant_errors: u32,
     /// force at least this many passive data segments / memory.init users
     pub passive_bias: bool,
+    /// emit sections whose vector is empty (count 0) instead of omitting them
+    #[serde(default)]
+    pub empty_sections: bool,
 }
 
 impl GenParams {
     pub fn draw(rng: &mut Rng, max_funcs: u32) -> GenParams {
         let n_funcs = match rng.below(10) {
-            0..=3 => rng.range(1, 4) as u32,
+            0 => rng.range(0, 2) as u32,
+            1..=3 => rng.range(1, 4) as u32,
             4..=6 => rng.range(4, 24) as u32,
             7..=8 => rng.range(24, 80.min(max_funcs as u64).max(24)) as u32,
             _ => rng.range(1, max_funcs.max(1) as u64) as u32,
         }
         .min(max_funcs.max(1));
+        let zero_ok = n_funcs == 0;
         GenParams {
             seed: rng.u64(),
-            n_funcs,
+            n_funcs: if zero_ok { 0 } else { n_funcs.max(1) },
             size_mode: rng.below(3) as u8,
             multi_memory: rng.chance(1, 4),
             memory64: rng.chance(1, 5),
@@ -60,6 +65,7 @@ impl GenParams {
             n_customs: if rng.chance(1, 2) { 0 } else { rng.range(1, 6) as u32 },
             plant_errors: 0,
             passive_bias: rng.chance(1, 3),
+            empty_sections: rng.chance(1, 8),
         }
     }
 }
@@ -477,10 +483,34 @@ impl<'e> Body<'e> {
                 let a = self.memarg(m, 3, false);
                 self.emit(I::F64Load(a))
             }
-            _ => match self.rng.below(3) {
+            _ => match self.rng.below(6) {
                 0 => {
                     let a = self.memarg(m, 4, false);
                     self.emit(I::V128Load(a))
+                }
+                3 => {
+                    // v128.loadN_lane: (addr, v128) -> v128
+                    self.expr(VT::V128, depth + 1);
+                    match self.rng.below(2) {
+                        0 => {
+                            let a = self.memarg(m, 0, false);
+                            let lane = self.rng.below(16) as u8;
+                            self.emit(I::V128Load8Lane { memarg: a, lane })
+                        }
+                        _ => {
+                            let a = self.memarg(m, 2, false);
+                            let lane = self.rng.below(4) as u8;
+                            self.emit(I::V128Load32Lane { memarg: a, lane })
+                        }
+                    }
+                }
+                4 => {
+                    let a = self.memarg(m, 3, false);
+                    self.emit(I::V128Load64Zero(a))
+                }
+                5 => {
+                    let a = self.memarg(m, 1, false);
+                    self.emit(I::V128Load16Splat(a))
                 }
                 1 => {
                     let a = self.memarg(m, 3, false);
@@ -891,8 +921,14 @@ impl<'e> Body<'e> {
                 self.emit(I::F64Store(a))
             }
             _ => {
-                let a = self.memarg(m, 4, false);
-                self.emit(I::V128Store(a))
+                if self.rng.bool() {
+                    let a = self.memarg(m, 4, false);
+                    self.emit(I::V128Store(a))
+                } else {
+                    let a = self.memarg(m, 3, false);
+                    let lane = self.rng.below(2) as u8;
+                    self.emit(I::V128Store64Lane { memarg: a, lane })
+                }
             }
         }
     }
@@ -1018,7 +1054,7 @@ impl<'e> Body<'e> {
     fn atomic_stmt(&mut self, depth: u32) {
         self.uses_atomics = true;
         let Some(m) = self.pick_shared_mem() else { return self.emit(I::AtomicFence) };
-        match self.rng.below(4) {
+        match self.rng.below(8) {
             0 => {
                 self.addr(m, depth);
                 self.expr(VT::I32, depth + 1);
@@ -1038,6 +1074,35 @@ impl<'e> Body<'e> {
                 self.expr(VT::I64, depth + 1);
                 let a = self.memarg(m, 2, true);
                 self.emit(I::MemoryAtomicWait32(a));
+                self.emit(I::Drop)
+            }
+            3 => {
+                self.addr(m, depth);
+                self.expr(VT::I64, depth + 1);
+                self.expr(VT::I64, depth + 1);
+                let a = self.memarg(m, 3, true);
+                self.emit(I::MemoryAtomicWait64(a));
+                self.emit(I::Drop)
+            }
+            4 => {
+                self.addr(m, depth);
+                self.expr(VT::I32, depth + 1);
+                let a = self.memarg(m, 0, true);
+                self.emit(I::I32AtomicStore8(a))
+            }
+            5 => {
+                self.addr(m, depth);
+                self.expr(VT::I64, depth + 1);
+                let a = self.memarg(m, 0, true);
+                self.emit(I::I64AtomicRmw8AddU(a));
+                self.emit(I::Drop)
+            }
+            6 => {
+                self.addr(m, depth);
+                self.expr(VT::I32, depth + 1);
+                self.expr(VT::I32, depth + 1);
+                let a = self.memarg(m, 1, true);
+                self.emit(I::I32AtomicRmw16CmpxchgU(a));
                 self.emit(I::Drop)
             }
             _ => self.emit(I::AtomicFence),
@@ -1469,28 +1534,28 @@ pub fn generate(p: &GenParams) -> Generated {
         m.section(&is);
     }
 
-    if p.n_funcs > 0 {
+    if p.n_funcs > 0 || p.empty_sections {
         let mut fs = we::FunctionSection::new();
         for k in 0..p.n_funcs {
             fs.function(funcs[(n_imp_funcs + k) as usize]);
         }
         m.section(&fs);
     }
-    if table_types.len() > table_i {
+    if table_types.len() > table_i || p.empty_sections {
         let mut s = we::TableSection::new();
         for t in &table_types[table_i..] {
             s.table(*t);
         }
         m.section(&s);
     }
-    if mem_types.len() > mem_i {
+    if mem_types.len() > mem_i || p.empty_sections {
         let mut s = we::MemorySection::new();
         for t in &mem_types[mem_i..] {
             s.memory(*t);
         }
         m.section(&s);
     }
-    if !global_inits.is_empty() {
+    if !global_inits.is_empty() || p.empty_sections {
         let mut s = we::GlobalSection::new();
         for (t, e) in &global_inits {
             s.global(*t, e);
@@ -1525,7 +1590,7 @@ pub fn generate(p: &GenParams) -> Generated {
                 n += 1;
             }
         }
-        if n > 0 {
+        if n > 0 || p.empty_sections {
             m.section(&s);
         }
     }
@@ -1536,7 +1601,7 @@ pub fn generate(p: &GenParams) -> Generated {
             m.section(&we::StartSection { function_index: *rng.pick(&cands) });
         }
     }
-    if !elems.is_empty() {
+    if !elems.is_empty() || p.empty_sections {
         let mut s = we::ElementSection::new();
         for e in &elems {
             let els = match &e.exprs {
@@ -1562,14 +1627,14 @@ pub fn generate(p: &GenParams) -> Generated {
     if !data_segs.is_empty() && (need_count || (p.bulk && rng.bool())) {
         m.section(&we::DataCountSection { count: data_segs.len() as u32 });
     }
-    if p.n_funcs > 0 {
+    if p.n_funcs > 0 || p.empty_sections {
         let mut cs = we::CodeSection::new();
         for b in &bodies {
             cs.function(b);
         }
         m.section(&cs);
     }
-    if !data_segs.is_empty() {
+    if !data_segs.is_empty() || p.empty_sections {
         let mut s = we::DataSection::new();
         for (mode, bytes) in &data_segs {
             match mode {
